@@ -122,43 +122,40 @@ func parseWildcardConstraint(operator, version string) ([]*constraint, error) {
 	baseVersion := strings.TrimSuffix(version, ".*")
 
 	e := &Ecosystem{}
-	v, err := e.NewVersion(baseVersion + ".0")
+	v, err := e.NewVersion(baseVersion)
 	if err != nil {
 		return nil, err
 	}
 
-	if operator == "==" {
-		// ==1.2.* means >=1.2.0, <1.3.0
-		if len(v.release) >= 2 {
-			lowerBound := fmt.Sprintf("%d.%d.0", v.release[0], v.release[1])
-			upperBound := fmt.Sprintf("%d.%d.0", v.release[0], v.release[1]+1)
-			return []*constraint{
-				{operator: ">=", version: lowerBound},
-				{operator: "<", version: upperBound},
-			}, nil
-		}
+	// The prefix X.Y.* covers >=X.Y, <X.(Y+1), whatever the number of release segments
+	lower := make([]string, len(v.release))
+	upper := make([]string, len(v.release))
+	for i, n := range v.release {
+		lower[i] = strconv.Itoa(n)
+		upper[i] = strconv.Itoa(n)
+	}
+	upper[len(upper)-1] = strconv.Itoa(v.release[len(v.release)-1] + 1)
+	epoch := ""
+	if v.epoch != 0 {
+		epoch = strconv.Itoa(v.epoch) + "!"
+	}
+	lowerBound := epoch + strings.Join(lower, ".")
+	upperBound := epoch + strings.Join(upper, ".")
 
-		// ==1.* means >=1.0.0, <2.0.0
-		if len(v.release) >= 1 {
-			lowerBound := fmt.Sprintf("%d.0.0", v.release[0])
-			upperBound := fmt.Sprintf("%d.0.0", v.release[0]+1)
-			return []*constraint{
-				{operator: ">=", version: lowerBound},
-				{operator: "<", version: upperBound},
-			}, nil
-		}
+	if operator == "==" {
+		// ==1.2.* means >=1.2, <1.3 and ==1.* means >=1, <2
+		return []*constraint{
+			{operator: ">=", version: lowerBound},
+			{operator: "<", version: upperBound},
+		}, nil
 	}
 
 	if operator == "!=" {
 		// !=1.2.* means <1.2.0 or >=1.3.0
-		if len(v.release) >= 2 {
-			lowerBound := fmt.Sprintf("%d.%d.0", v.release[0], v.release[1])
-			upperBound := fmt.Sprintf("%d.%d.0", v.release[0], v.release[1]+1)
-			return []*constraint{
-				{operator: "<", version: lowerBound},
-				{operator: ">=", version: upperBound},
-			}, nil
-		}
+		return []*constraint{
+			{operator: "<", version: lowerBound},
+			{operator: ">=", version: upperBound},
+		}, nil
 	}
 
 	return nil, fmt.Errorf("unsupported wildcard constraint: %s%s", operator, version)
